@@ -219,6 +219,49 @@ macro_rules! escape_harness {
     };
 }
 
+macro_rules! escape_bytes_harness {
+    ($name:ident, $invalid_lead:expr) => {
+        #[kani::proof]
+        #[kani::unwind(16)]
+        #[kani::stub(alloc::sync::Arc::drop_slow, crate::verif_common::arc_drop_slow_leak)]
+        fn $name() {
+            // a value of kind `bytes`: optionally one byte that is not valid UTF-8 (0xff), then ANY ASCII byte
+            let c: u8 = kani::any();
+            kani::assume(c < 0x80);
+            let data: Vec<u8> = if $invalid_lead { vec![0xff, c] } else { vec![c] };
+            let v = Value::from_bytes(data);
+            let mut rec = Rec::<24>::new();
+            let r = {
+                let mut out = Output::new(&mut rec);
+                let r = write_escaped(&mut out, AutoEscape::Html, &v);
+                core::mem::forget(out);
+                r
+            };
+            assert!(r.is_ok());
+            assert!(!rec.overflow);
+            // whatever text the byte string is rendered as, no markup character reaches the sink unescaped
+            let got = rec.bytes();
+            let mut i = 0;
+            while i < got.len() {
+                assert!(got[i] != b'<' && got[i] != b'>' && got[i] != b'"' && got[i] != b'\'');
+                i += 1;
+            }
+            if html_entity(c).is_some() {
+                assert!(got.len() > 1);
+            }
+            kani::cover!(c == b'<');
+            kani::cover!(c == b'a');
+            core::mem::forget(r);
+            core::mem::forget(v);
+        }
+    };
+}
+
+// @verif-block props=C02 tier=quick cap=900 group=core doc=write_escaped(out,Html,v)_for_a_value_of_kind_bytes_holding_ANY_ASCII_byte,_alone_or_behind_a_byte_that_is_not_valid_UTF-8:_no_raw_<>"'_reaches_the_sink_(byte_strings_are_user_data_like_any_other_string)
+escape_bytes_harness!(c02_escape_bytes_valid_utf8, false);
+escape_bytes_harness!(c02_escape_bytes_invalid_utf8, true);
+// @verif-end
+
 fn mk_small(s: &str) -> Value {
     Value::from(s)
 }
